@@ -212,8 +212,11 @@ pub fn cfg_strategy() -> BoxedStrategy<SvgCfg> {
         prop_oneof![2 => Just(None), 1 => (0usize..3).prop_map(Some)],
         warm_strategy(),
         prop_oneof![1 => Just(0u8), 1 => any::<u8>()],
+        prop_oneof![1 => Just((None, None, None)), 1 => crate::svgcase::image_geometry()],
     )
-        .prop_map(|(margin, layers, module_color, background, image, bgs, warm, order)| SvgCfg { margin, layers, module_color, background, image, image_bg_shape: bgs, warm, order, ..SvgCfg::default() })
+        .prop_map(|(margin, layers, module_color, background, image, bgs, warm, order, (image_size, image_gap, image_position))| SvgCfg {
+            margin, layers, module_color, background, image, image_bg_shape: bgs, warm, order, image_size, image_gap, image_position, ..SvgCfg::default()
+        })
         .boxed()
 }
 
@@ -229,7 +232,7 @@ pub fn run(e: &'static Engine) {
          layers (on V1-V3 symbols). Generated: QR (versions weighted small, any level/mask) x margin (unset, 0, 0..=16) x a program \
          of 0..4 shape()/shape_color() calls over the 6 built-ins x colours as [u8;3], [u8;4] (alpha 0, 1..254, 255) or benign CSS \
          strings x module/background colours x image in {none, URL with &, data URI, relative/Windows path, printable ASCII and \
-         non-ASCII text} with forced insertion of & < > \" ' ]]> -- &amp; &#x. Oracle: roxmltree parses the document; root svg with \
+         non-ASCII text} x image size / gap / position overrides (absent, or size 0..1e9, gap from below minus half the size to 1e6, position anywhere incl. exactly 0.0 and negative) with forced insertion of & < > \" ' ]]> -- &amp; &#x. Oracle: roxmltree parses the document; root svg with \
          viewBox '0 0 S S', S = size + 2 x margin; first child rect S px x S px filled with the background colour (#rrggbb, \
          #rrggbbaa iff alpha < 255); then exactly one path per configured layer in call order with that layer's fill; an SVG path \
          interpreter splits d into sub-paths whose extents must map one-to-one onto {(col+margin, row+margin): module dark}, \
